@@ -111,6 +111,8 @@ def ast_paths(ast, out=None):
     t = ast[0]
     if t in ("lit", "nplit"):
         return out
+    if t == "idx":
+        return ast_paths(ast[1], out)
     if t == "ref":
         out.append(ast[1])
         for st in ast[1][1:]:
@@ -138,6 +140,8 @@ def has_ref(ast):
         return False
     if t in ("ref", "call"):
         return True
+    if t == "idx":
+        return has_ref(ast[1])
     if t == "bin":
         return has_ref(ast[2]) or has_ref(ast[3])
     return has_ref(ast[2])
@@ -158,6 +162,8 @@ def ast_size(ast):
         return 1 + ast_size(ast[2]) + ast_size(ast[3])
     if t in ("un", "bi"):
         return 1 + ast_size(ast[2])
+    if t == "idx":
+        return 1 + ast_size(ast[1])
     if t == "call":
         return 1 + sum(ast_size(a) for a in ast[2]) + sum(ast_size(a) for _, a in ast[3])
     return 1
@@ -427,6 +433,8 @@ class Model:
             return UNOPS[ast[1]](self._ev(ast[2], get))
         if t == "bi":
             return BUILTINS[ast[1]](self._ev(ast[2], get), *ast[3])
+        if t == "idx":
+            return self._ev(ast[1], get)[ast[2]]
         if t == "call":
             args = [self._ev(a, get) for a in ast[2]]
             kw = {k: self._ev(a, get) for k, a in ast[3]}
@@ -591,14 +599,14 @@ def _check_ast(m, ast):
             raise ModelReject("unknown location " + path_str(p))
 
 
-def _free_leaf(m, p):
+def _free_leaf(m, p, allow_knob_target=False):
     if p not in m.spec.leaf_type:
         raise ModelReject("not a leaf")
-    if p in m.ft_target or p in m.kn_target:
+    if p in m.ft_target or (p in m.kn_target and not allow_knob_target):
         raise ModelReject("location is the target of a function/knob task")
 
 
-def _claim_leaf(m, path):
+def _claim_leaf(m, path, allow_knob_target=False):
     """Precondition of an assignment to `path`.  If a function task is registered under this very reference (its task
     id is the reference of its first target), the assignment removes that task first - exactly as it removes an
     expression; its targets keep the values they hold."""
@@ -612,7 +620,7 @@ def _claim_leaf(m, path):
                 del m.ft_target[t]
             del m.ftasks[name]
             m.order.remove(("f", name))
-    _free_leaf(m, path)
+    _free_leaf(m, path, allow_knob_target)
 
 
 def _apply(m, op):
@@ -620,7 +628,8 @@ def _apply(m, op):
     kind = op[0]
     if kind == "setv":
         _, path, value = op[:3]
-        _claim_leaf(m, path)
+        # a plain value may be assigned to the target of a linear knob: the knob keeps adding its increments to it
+        _claim_leaf(m, path, allow_knob_target=True)
         if path in m.defs:
             del m.defs[path]
             m.order.remove(("e", path))
@@ -684,7 +693,7 @@ def _apply(m, op):
         _, name, deps, targets, coefs = op[:5]
         if name in m.ftasks or name in m.knobs:
             raise ModelReject("task name in use")
-        if not deps or not targets or len(set(targets)) != len(targets):
+        if not targets or len(set(targets)) != len(targets):
             raise ModelReject("empty/duplicate")
         ksrc = {k["source"] for k in m.knobs.values()}
         for t in targets:
@@ -702,6 +711,8 @@ def _apply(m, op):
         start = set()
         for d in deps:
             start.update(m.pfx(d))
+        if not deps:
+            return ("TASK", ("f", name))      # nothing triggers it: the user runs this one task once
         return sorted(start, key=repr)
     if kind == "unregf":
         name = op[1]
@@ -794,7 +805,15 @@ def model_step(model, op, g_restricted=False, want_graph=True):
     info.g_cyclic = m.has_cycle(edges)
     if g_restricted and info.g_cyclic:
         raise ModelReject("public task graph would get a cycle")
-    if start == ALL:
+    if isinstance(start, tuple) and len(start) == 2 and start[0] == "TASK":
+        trig = set()
+        work = [start[1]]
+        while work:
+            t = work.pop()
+            if t not in trig:
+                trig.add(t)
+                work.extend(edges[t])
+    elif start == ALL:
         trig = set(t for t in decl if decl[t][0])
     elif start is not None:
         trig, _, _ = m.trigger(start, decl, edges)
